@@ -181,6 +181,59 @@ def random_header(rng, nfields=None, big=False):
     return Header(fields, cb_full)
 
 
+def boundary_header(rng, nf, target):
+    """a header whose merge-mining RLP payload (the kept fields) is exactly `target` bytes long:
+    the sizes around the RLP short/long list boundary (55/56) and the one/two length-byte boundary"""
+    h = random_header(rng, nf)
+    base_n = nf - 3 if nf in (19, 20) else nf - 1 if nf in (17, 18) else nf
+    kept = base_n if nf in (19, 20) else nf - 1
+    for i in range(kept):
+        h.fields[i] = rbytes(rng, rng.choice([0, 1, 2, 3])) if i != 6 else b""
+        if len(h.fields[i]) == 1 and h.fields[i][0] < 0x80:
+            h.fields[i] = bytes([h.fields[i][0] | 0x80])
+    cur = sum(len(rlp_str(f)) for f in h.fields[:kept])       # field 6 currently encodes to 1 byte
+    need = target - (cur - 1)                                  # encoded length wanted for field 6
+    if need < 1:
+        return boundary_header(rng, nf, target)
+    if need == 1:
+        h.fields[6] = b""
+    elif need <= 56:
+        h.fields[6] = bytes([0x80 | rng.randrange(128)]) + rbytes(rng, need - 2)
+    elif need == 57:
+        # 57 is not reachable with one string (55 bytes -> 56, 56 bytes -> 58): lengthen a neighbour
+        h.fields[5] = h.fields[5] + b"\xaa" if len(h.fields[5]) != 0 else b"\xaa\xaa"
+        return _fix(h, kept, target) or boundary_header(rng, nf, target)
+    elif need <= 257:
+        h.fields[6] = rbytes(rng, need - 2)
+    else:
+        h.fields[6] = rbytes(rng, need - 3)
+    return h if h.mm_payload_size() == target else (_fix(h, kept, target) or boundary_header(rng, nf, target))
+
+
+def _fix(h, kept, target):
+    for n6 in range(0, 400):
+        h.fields[6] = b"\xee" * n6
+        if h.mm_payload_size() == target:
+            return h
+    return None
+
+
+def same_hash_variant(rng, h):
+    """a header with the same block hash (merkle proof / coinbase are not part of the hash) but
+    different bytes; None for headers without merge-mining fields"""
+    if h.n() not in (19, 20):
+        return None
+    cb_len = rng.choice([65, 100, 128, 200])
+    cb_full = rbytes(rng, cb_len)
+    split = 64 * rng.randint(0, cb_len // 64)
+    if split == cb_len:
+        split -= 64
+    fields = list(h.fields)
+    fields[-2] = rbytes(rng, 32 * rng.randint(0, 5))
+    fields[-1] = compress_coinbase(cb_full, split)
+    return Header(fields, cb_full)
+
+
 # ---------------------------------------------------------------- BTC transactions
 def varint(n):
     if n < 0xFD:
